@@ -196,3 +196,25 @@ func c13PubType(c *Ctx) {
 	r.Counts["key_valued_fields_of_public_keys"] = n
 	r.Min("C13.pubtype", 1)
 }
+
+// c13Relabel: the KeyMaterialType label of a key is set where its KeyData is
+// built (a fresh literal in a serializer) and nowhere else: no product code
+// rewrites the label of an existing KeyData (relabelling UNKNOWN or private
+// material as public lets it through hasSecrets).
+func c13Relabel(c *Ctx) {
+	p, r := c.P, c.R
+	n := 0
+	for _, f := range p.SortedFuncs(core.Product) {
+		allInstrs(f, func(ins ssa.Instruction) {
+			base, fld, _, ok := guard.StoreField(ins)
+			if !ok || fld != "KeyMaterialType" || core.TypeID(base.Type()) != "proto/tink_go_proto.KeyData" {
+				return
+			}
+			n++
+			_, fresh := guard.Strip(base).(*ssa.Alloc)
+			r.Check(fresh, "C13.label", fmt.Sprintf("C13.label/relabel/%s", core.FuncID(f)), p.Pos(ins.Pos()),
+				"the KeyMaterialType label of an existing KeyData is overwritten: hasSecrets trusts the label, so relabelled key material can leave through the no-secrets writers", "label set only in a fresh KeyData literal")
+		})
+	}
+	r.Counts["key_material_type_stores"] = n
+}
